@@ -3,6 +3,7 @@ mod verif_kani {
     //! C13 / C06 / C12: BEP 15 request layout.  The oracle composes big-endian integers at the offsets BEP 15 gives;
     //! it shares no code with zerocopy / byteorder.
     use super::*;
+    use std::io::Cursor;
 
     fn be_u16(b: &[u8], o: usize) -> u16 { ((b[o] as u16) << 8) | b[o + 1] as u16 }
     fn be_i32(b: &[u8], o: usize) -> i32 {
